@@ -1242,7 +1242,7 @@ func c20IndentSweep(c *Ctx) {
 			lines[i] = k.line()
 		}
 		batch := remaining
-		stuck, status, stderr := c20Batch("c20indent", lines, 3*time.Second, func(i int, f []string) {
+		stuck, status, stderr := c20Batch("c20indent", lines, 45*time.Second, func(i int, f []string) {
 			k := batch[i]
 			c.Case("indent|"+k.line(), !isBlank(k.prefix) || !isBlank(k.indent))
 			c.Hit("v1.Indent/" + f[0])
@@ -1527,7 +1527,7 @@ func c20PanicSweep(c *Ctx) {
 		case <-tick.C:
 			now := time.Now().UnixNano()
 			for _, wt := range watches {
-				if s := wt.since.Load(); s != 0 && now-s > int64(20*time.Second) {
+				if s := wt.since.Load(); s != 0 && now-s > int64(120*time.Second) {
 					op, _ := wt.op.Load().(string)
 					in, _ := wt.input.Load().([]byte)
 					c.Violate("hang", op, in, map[string]any{"seconds": 20})
